@@ -111,7 +111,10 @@ where
                 }
                 // If no messages are available and there's no work to do, block this future
                 Poll::Pending if stream.is_empty() && buffered_item.is_none() => {
-                    return Poll::Pending
+                    // Items handed to the sinks before the last stream finished may still be
+                    // waiting for a flush that returned Pending earlier.
+                    ready!(sink.as_mut().poll_flush(cx)).unwrap();
+                    return Poll::Pending;
                 }
                 // Otherwise, move on with running the stream
                 Poll::Pending => (),
